@@ -43,20 +43,40 @@ func waitCond(c *Ctx) {
 		return
 	}
 	fcall := fnCalls[0].(*ssa.Call)
-	// 1. return nil only after fn() == true
-	ifs, negs := P.IfsOn(fn, func(cond ssa.Value) bool { return cond == ssa.Value(fcall) })
-	if len(ifs) != 1 {
-		q.undecided("PATH", "return nil only if the predicate returned true", "the predicate's result is not tested exactly once")
+	isFnCall := func(v ssa.Value) bool {
+		for _, fc := range fnCalls {
+			if v == ssa.Value(fc.(*ssa.Call)) {
+				return true
+			}
+		}
+		return false
+	}
+	// 1. return nil only after fn() == true (the predicate may be evaluated at several sites - a loop specialised on
+	// ctx == nil, say - each with its own test)
+	ifs, negs := P.IfsOn(fn, isFnCall)
+	if len(ifs) != len(fnCalls) || len(ifs) == 0 {
+		q.undecided("PATH", "return nil only if the predicate returned true", "the predicate's result is not tested exactly once per evaluation")
 		return
 	}
-	trueSucc := 0
-	if negs[0] {
-		trueSucc = 1
+	type fedge struct {
+		b *ssa.BasicBlock
+		i int
 	}
+	trueEdges, falseEdges := map[fedge]bool{}, map[fedge]bool{}
+	for i, ifi := range ifs {
+		ts := 0
+		if negs[i] {
+			ts = 1
+		}
+		trueEdges[fedge{ifi.Block(), ts}] = true
+		falseEdges[fedge{ifi.Block(), 1 - ts}] = true
+	}
+	cutTrue := func(b *ssa.BasicBlock, i int) bool { return trueEdges[fedge{b, i}] }
+	cutFalse := func(b *ssa.BasicBlock, i int) bool { return falseEdges[fedge{b, i}] }
 	for _, r := range returnsOf(fn) {
 		ev := c.retVals(r, 0)
 		if allNil(ev) {
-			ok := q.onlyViaEdge(r, ifs[0], trueSucc)
+			ok := !P.PathExists(fn, nil, an.Is(r), nil, cutTrue)
 			q.add("PATH", "WaitCond returns nil only after the predicate returned true", ok,
 				pickS(ok, "the nil return is reachable only through the fn()==true edge", "WaitCond can return nil without the predicate having returned true with the lock held"), r)
 			continue
@@ -134,13 +154,21 @@ func waitCond(c *Ctx) {
 			}
 		}
 		for _, w := range waits {
-			bad := P.PathExists(fn, w, an.Is(fcall), an.In(errChecks), cut)
+			// a wait of the no-context case (reachable only through a ctx == nil edge) has no context to re-check
+			noCtx := cut != nil && !P.PathExists(fn, nil, an.Is(w), nil, cut)
+			bad := !noCtx && P.PathExists(fn, w, func(in ssa.Instruction) bool {
+				call, ok := in.(*ssa.Call)
+				return ok && isFnCall(call)
+			}, an.In(errChecks), cut)
 			q.add("PATH", "after every wake-up the context is re-checked before the predicate", !bad,
 				pickS(!bad, "every path from Wait back to fn() passes ctx.Err() (when ctx != nil)", "a path leads from cond.Wait back to the predicate without re-checking ctx.Err(): a cancelled waiter would park again"), w)
-			okb := P.Before(fn, an.Is(fcall), w) && q.onlyViaEdge(w, ifs[0], 1-trueSucc)
+			okb := P.Before(fn, an.In(fnCalls), w) && !P.PathExists(fn, nil, an.Is(w), nil, cutFalse)
 			q.add("PATH", "Wait only after the predicate returned false", okb, "Wait is dominated by fn() and reached through its false edge", w)
 		}
-		first := !P.PathExists(fn, nil, an.Is(fcall), an.In(errChecks), cut)
+		first := !P.PathExists(fn, nil, func(in ssa.Instruction) bool {
+			call, ok := in.(*ssa.Call)
+			return ok && isFnCall(call)
+		}, an.In(errChecks), cut)
 		q.add("PATH", "the context is checked before the first predicate evaluation", first, "entry -> fn() passes ctx.Err() when ctx != nil", fcall)
 	}
 	// 3. watcher: derived context, deferred cancel, broadcast after Done
